@@ -38,8 +38,29 @@ FORMATS = ['bdd.pickle', 'autoref.pickle', 'autoref.json',
            '_copy.json.load_order']
 
 
+HIST_ALPHA = {'file_roundtrip': 14, 'build': 8, 'declare': 4, 'add_var': 2,
+              'apply': 3, 'drop': 5, 'gc': 3, 'swap': 3, 'reorder_to': 2,
+              'sift': 1, 'undeclare': 1, 'var': 1}
+
+
+def _hist_nontrivial(w):
+    return 'file_roundtrip' in w.nontrivial
+
+
 def plan(tier, seed):
     specs = []
+    # dumps and loads in the middle of histories (declarations,
+    # reorderings and collections before and after)
+    cfgs = [dict(kind='autoref', nmax=4, init_vars=3),
+            dict(kind='autoref', nmax=5, init_vars=3),
+            dict(kind='bdd', nmax=4, init_vars=3),
+            dict(kind='autoref', nmax=5, init_vars=4, reordering=True,
+                 reorder_starts=8)]
+    for s_ in range(8 if tier == 'thorough' else 2):
+        specs.append(dict(kind='history', seed=seed * 1000 + 700 + s_,
+                          cfgs=cfgs,
+                          examples=800 if tier == 'thorough' else 120,
+                          min_len=6, max_len=30))
     for n in (0, 1, 2, 3):
         for so in fix.orders(n):
             specs.append(dict(kind='all', n=n, source=so, seed=seed))
@@ -363,10 +384,16 @@ def run_random(spec, out):
 
 
 def run(spec, out):
+    if spec['kind'] == 'history':
+        from .. import histprop as H_
+        return H_.run_random(spec, out, HIST_ALPHA, _hist_nontrivial)
     dict(all=run_all, random=run_random)[spec['kind']](spec, out)
 
 
 def replay_into(case, out):
+    if case.get('kind') == 'history':
+        from .. import histprop as H_
+        return H_.replay_into(case, out)
     cwd = os.getcwd()
     if case['kind'] == 'special':
         out.guard(case, lambda: check_special(case, cwd))
